@@ -1066,3 +1066,29 @@ Example C07_example_alias :
       /\ fst r' = fst r /\ ts_log (snd (snd r')) = []).
 Proof. exact (conj alias_example alias_example_eval). Qed.
 Print Assumptions C07_example_alias.
+
+(* C07_correct_partial -- where the whole statement stands after the theorems above.
+   PROVED end to end (model of the resolver against Universe.serve through the wire codec, fault-free
+   universe oracle, only-v4, root hints as the only local zone, SimpleCache and the real cache model):
+     any depth (C07_correct_chain), any cache consistent with the universe (C07_correct_warm), any
+     sequence of questions on one cache (C07_sequence, C07_alias_sequence), alias chains crossing zones
+     (C07_correct_alias) -- for questions of a record type other than NS / CNAME / ANY whose names are
+     reached by glue-complete delegation chains and are not themselves nameserver hosts.
+   STILL MISSING for "every consistent universe, every question, every mode" (covered by the differential
+   stream of vlib/p_c07.py only):
+     (1) nameserver hosts without a usable A record in the referral or the cache: the slow candidate
+         pass resolves the host by a nested resolve_recursive_notimeout (needs: the induction of
+         RecursiveAlias.alias_resolve applied to the host question with the question on the stack, and
+         a well-founded measure over the "needs the address of" relation between zones);
+     (2) the modes prefer-v4 / prefer-v6 / only-v6 (resolve_hostname_to_ip tries two record types;
+         cand_ok and the cache invariant are stated for A records only);
+     (3) servers authoritative for several zones of ONE delegation chain (serve answers from the
+         deepest of them: a hop of the chain is skipped; wlink asks that the server's closest zone for
+         the name is the child);
+     (4) faults (dropped, truncated, wrong-id replies: query_nameserver's TCP retry and the DeadEnd on
+         the first candidate without a usable reply);
+     (5) from a WARM cache: questions for NS and questions about a nameserver host (the glue shortcut,
+         finding F11; cache completeness is not claimed at nameserver hosts);
+     (6) the per-question hypotheses (warm_question, alias_path) derived from one decidable
+         well-formedness predicate on universes (consistentb + tree shape), instead of being stated
+         question by question. *)
